@@ -54,6 +54,15 @@ func (hs *SimpleHotStuff) VoteRule(view hotstuff.View, proposal hotstuff.Propose
 		return false
 	}
 
+	// Voting for the block locks the block that the parent's certificate certifies (see CommitRule).
+	// A replica that cannot get hold of that block cannot keep its lock up to date and must not vote.
+	if parent.Hash() != hotstuff.GetGenesis().Hash() {
+		if _, ok := hs.blockchain.Get(parent.QuorumCert().BlockHash()); !ok {
+			hs.logger.Info("VoteRule: cannot determine the block to lock")
+			return false
+		}
+	}
+
 	// Rule 2: can only vote if parent's view is greater than or equal to locked block's view.
 	if parent.View() < hs.locked.View() {
 		hs.logger.Info("VoteRule: parent too old")
